@@ -27,7 +27,7 @@ from harness.c07 import converged, chain_factor, ctx_seed, ExitRec
 THEOREMS = [
     'Adj.jtvec_adjoint', 'Adj.inv_symm', 'Adj.jtvec_comp_grid',
     'Adj.jvec_comp_grid', 'Adj.jvec_is_derivative', 'Adj.resolvent2',
-    'Grad.collect_stack_adjoint', 'Grad.toVolX_adjoint',
+    'Grad.collect_stack_adjoint', 'Grad.toVolX_adjoint', 'Grad.avgX_interior',
 ]
 
 
